@@ -63,6 +63,17 @@ class RawWriter(io.RawIOBase):
     def writable(self):
         return True
 
+    def seekable(self):
+        return True     # like a file opened for appending: position is always the end
+
+    def tell(self):
+        return len(self.f.data)
+
+    def seek(self, offset, whence=0):
+        if (whence == 2 and offset == 0) or (whence == 1 and offset == 0) or (whence == 0 and offset == len(self.f.data)):
+            return len(self.f.data)
+        raise OSError('simulated append-only file')
+
     def write(self, b):
         b = bytes(b)
         self.calls += 1
